@@ -164,3 +164,49 @@ _run_before_io_window = run
 def run(ctx):
     _run_before_io_window(ctx)
     io_window_rule(ctx, "C18-d")
+
+
+# ---------------------------------------------------------------------------------------------- C18-e
+_run_abc18 = run
+
+
+def run(ctx):
+    _run_abc18(ctx)
+    file_offset_index_follows_file(ctx)
+
+
+def file_offset_index_follows_file(ctx):
+    """C18-e the File log store keeps `index_end_pos` (entry index -> byte offset of its end in log.data); `end_pos_before(i)`
+    turns it into the length a truncation cuts the file to.  Every shrink of the file must take the offsets of the cut-off bytes
+    out of that map in the same function: after `set_len(0)` the whole map is cleared (before the rewrite inserts new offsets),
+    after `set_len(x)` the entries from the truncation index on are removed (remove_from_index / split_off / retain).  A stale
+    offset makes a later truncation cut at a position of the OLD file layout: the replaced tail stays on disk and comes back at
+    restart, or the file is cut mid-entry."""
+    F = ctx.F
+    n = 0
+    CLEARS = r"BTreeMap(::<.*>)?::clear$|mem::take$|mem::replace$"
+    PARTIAL = r"BTreeMap(::<.*>)?::(remove|split_off|retain|clear|pop_last|extract_if)$|mem::take$|mem::replace$"
+    for bid, b in sorted(F.bodies.items()):
+        if b.crate != "d_engine_server" or not re.search(r"adaptors/file/file_storage_engine\.rs$", b.file or "") or re.search(r"_test", b.file or ""):
+            continue
+        root = F.root_of[bid]
+        for (bi, t) in calls_matching(b, r"fs::File::set_len$|File::set_len$"):
+            n += 1
+            ls = Slice(F, b).operand(t["args"][1])
+            zero = ls.consts() == ["0"] and not any(x[0] in ("call", "field", "param", "binop") for x in ls.sources)
+            rx = CLEARS if zero else PARTIAL
+            fix = [x for (x, tt) in field_receiver_calls(F, b, "FileLogStoreInner", "index_end_pos", rx)]
+            fix += [x for (x, tt) in b.calls() if F.call_reaches(tt, lambda k: strip_generics(k).endswith("FileLogStoreInner::remove_from_index"), 2)] if not zero else []
+            errs = [x for x, tt in b.calls() if "from_residual" in (callee_key(tt) or "")]
+            wit = must_pass(b, bi, [], fix + errs, treat_exit_as_goal=True)
+            # ... and when the file is rewritten after a set_len(0), the clear comes before the first new offset is inserted
+            ins = [x for (x, tt) in field_receiver_calls(F, b, "FileLogStoreInner", "index_end_pos", r"BTreeMap(::<.*>)?::insert$")]
+            early_ins = None
+            if zero and wit is None:
+                early_ins = must_pass(b, bi, ins, fix + errs)
+            ctx.check("C18-e", "%s#set_len(%s)#offset-index-follows" % (fkey(root), "0" if zero else "x"), wit is None and early_ins is None,
+                      "the byte-offset index is %s in the same function" % ("cleared before the file is rewritten" if zero else "cut at the truncation index"),
+                      "the file is shrunk (set_len) but index_end_pos keeps offsets of the bytes that were cut off%s: end_pos_before() of a later truncation returns a position of "
+                      "the OLD file layout, so a conflict truncation right above the purge boundary does not remove the stale tail (it comes back at restart) or cuts mid-entry"
+                      % (" (new offsets are inserted before the map is cleared)" if early_ins else ""), loc(b, bi), (wit or early_ins) and bpath(b, wit or early_ins))
+    ctx.floor("C18-e", n, 4, "File::set_len calls in the File log store (reset x2, purge, truncate, replace_range)")
